@@ -21,6 +21,9 @@ type Circle struct {
 }
 
 func (c Circle) ToMesh() modeling.Mesh {
+	if c.Sides < 3 {
+		panic("can not make circle with less than 3 sides")
+	}
 
 	angleIncrement := (1.0 / float64(c.Sides)) * 2.0 * math.Pi
 	vertices := make([]vector3.Float64, c.Sides+1)
